@@ -199,6 +199,17 @@ func init() {
 	shapes["rset"] = "rv"
 	shapes["r2v"] = "rc"
 	shapes["tsp"] = "rac"
+	for _, n := range []string{"rsets3", "rsets8", "rsets12"} {
+		shapes[n] = "rc"
+	}
+	for _, n := range strings.Fields("multfps16f8 addfps8f4 divfps16f8 multfxps16f8 addfxps8f4 divfxps16f8 multlqs8t1 addlqs8t1 divlqs8t1") {
+		shapes[n] = "rr"
+	}
+	shapes["callo4st"] = "a"
+	shapes["calla4st"] = "m"
+	shapes["ret4st"] = ""
+	shapes["push4sk"] = "r"
+	shapes["pull4sk"] = "r"
 }
 
 func genLine(r *common.Rng, s archSpec, op string) string {
@@ -304,6 +315,14 @@ func main() {
 	if len(os.Args) < 2 {
 		fmt.Fprintln(os.Stderr, "usage: c03 gen <archs> <lines-per-op> | oplist | replay <file>")
 		os.Exit(2)
+	}
+	// instances of every dynamically created opcode family
+	for _, n := range []string{"rsets3", "rsets8", "rsets12", "multfps16f8", "addfps8f4", "divfps16f8", "multfxps16f8", "addfxps8f4",
+		"divfxps16f8", "multlqs8t1", "addlqs8t1", "divlqs8t1", "callo4st", "calla4st", "ret4st", "push4sk", "pull4sk"} {
+		func() {
+			defer func() { recover() }()
+			procbuilder.EventuallyCreateInstruction(n)
+		}()
 	}
 	all := allOps()
 	names := make([]string, 0, len(all))
